@@ -396,6 +396,11 @@ def dec_macro(ctx):
                     v = folder.fold(c["args"][1])
                 except T.Undecidable:
                     v = "?"
+                if isinstance(v, list) and v and all(isinstance(x, (tuple, list)) for x in v):
+                    # several (position, charset) spans appended at once
+                    for x in v:
+                        ev.append(("push", tuple(str(y) if isinstance(y, T.Token) else y for y in x)))
+                    return None
                 ev.append(("extend", tuple(v) if isinstance(v, list) else v))
                 return None
             if last == "is_empty" and "Vec" in cc:
